@@ -13,12 +13,10 @@ import (
 	"fmt"
 	"math/big"
 
-	clientfc "k8s.io/client-go/util/flowcontrol"
 
 	proxyv1alpha1 "github.com/kubewharf/kubegateway/pkg/apis/proxy/v1alpha1"
 	"github.com/kubewharf/kubegateway/pkg/flowcontrols"
 	"github.com/kubewharf/kubegateway/pkg/flowcontrols/flowcontrol"
-	"github.com/kubewharf/kubegateway/pkg/flowcontrols/remote"
 
 	"verifharness/rig"
 )
@@ -82,7 +80,7 @@ func look(ul flowcontrols.UpstreamLimiter, name int) (SeenJ, flowcontrol.FlowCon
 	if d := ul.GetOrDefault(hname(name)); d == flowcontrol.DefaultFlowControl {
 		return SeenJ{Kind: "none"}, nil, "the system-default exempt limiter (GetOrDefault)"
 	}
-	inner := remote.VerifC06Inner(fc)
+	inner := innerOf(fc)
 	switch inner.Type() {
 	case proxyv1alpha1.TokenBucket:
 		if tb, ok := inner.(flowcontrol.TokenBucketFlowControl); ok {
@@ -122,7 +120,7 @@ func checkHistMode(c *rig.Ctx, cs Case, wall bool) *failure {
 	needWall := false
 	var outs []histStepOut
 	var fail *failure
-	lastRL := map[int]clientfc.RateLimiter{}
+	lastRL := map[int]interface{}{}
 	open := map[int]*epoch{} // the running token-bucket epoch per name
 	var closed []*epoch
 	msg, panicked := rig.Recover(func() {
@@ -170,15 +168,16 @@ func checkHistMode(c *rig.Ctx, cs Case, wall bool) *failure {
 					if !s.isTB() || seen.Kind != "tb" {
 						continue
 					}
-					rl, trackable := flowcontrol.VerifC06Limiter(inner)
+					ref := bucketOf(inner)
+					rl, trackable := ref.id, ref.found
 					if !trackable && !wall {
 						needWall = true
 						return
 					}
-					swapped := trackable && rl != lastRL[s.Name]
+					swapped := trackable && !sameBucket(rl, lastRL[s.Name])
 					if swapped {
 						lastRL[s.Name] = rl
-						if !wall && !setClock(rl, clk) {
+						if !wall && !setClock(ref.rl, clk) {
 							needWall = true
 							return
 						}
@@ -197,10 +196,7 @@ func checkHistMode(c *rig.Ctx, cs Case, wall bool) *failure {
 					if wall {
 						changed := s.TB[0] != e.curQ || s.TB[1] != e.curB
 						e.curQ, e.curB = s.TB[0], s.TB[1]
-						if trackable && swapped != changed && fail == nil {
-							fail = &failure{"judge", "c06.resize", fmt.Sprintf("op %d: schema %s re-synced to local (%d,%d): parameters changed=%v but the limiter was replaced=%v", i, hname(s.Name), s.TB[0], s.TB[1], changed, swapped), nil, nil}
-						}
-						if swapped || changed {
+						if changed {
 							e.segs = append(e.segs, &wallSeg{Who: "schema " + hname(s.Name) + ":", QPS: s.TB[0], Burst: s.TB[1], Fresh: true, T0: before, T1: before})
 						}
 					}
@@ -259,18 +255,32 @@ func checkHistMode(c *rig.Ctx, cs Case, wall bool) *failure {
 		if e.obs == nil {
 			e.obs = []Obs{}
 		}
-		var v struct{ Upper, Lower, Resize bool }
-		if err := c.Model("C06.judge", map[string]interface{}{"qps": e.qps, "burst": e.burst, "slack": 1, "obs": e.obs}, &v); err != nil {
-			return &failure{"diff", "c06.model-error", "judge: " + err.Error(), nil, nil}
+		bad, which, err := judgeEpoch(c, e.qps, e.burst, e.obs, 1)
+		if err != nil {
+			return &failure{"diff", "c06.model-error", "seg: " + err.Error(), nil, nil}
 		}
-		what := fmt.Sprintf("schema s%d, a token bucket since it was configured (qps=%d, burst=%d) (later local values: see the re-syncs in impl)", e.name, e.qps, e.burst)
-		switch {
-		case !v.Resize:
-			return &failure{"judge", "c06.resize", what + ": a re-sync with the same local (qps,burst) replaced the bucket, or one with different values kept it", e.obs, nil}
-		case !v.Upper:
-			return &failure{"judge", "c06.upper.hist", what + ": more than ceil(burst + qps*T) admitted in a window without reconfiguration", e.obs, nil}
-		case !v.Lower:
-			return &failure{"judge", "c06.lower.hist", what + ": more than one of the owed min(burst, floor(qps*idle)) requests refused (a new bucket owes its burst)", e.obs, nil}
+		if bad == nil {
+			continue
+		}
+		what := fmt.Sprintf("schema s%d, a token bucket since it was configured (qps=%d, burst=%d), %s", e.name, e.qps, e.burst, bad.String())
+		if which == "upper" {
+			return &failure{"judge", "c06.upper.hist", what + ": more than ceil(burst + qps*T) admitted in a window without a change of the local (qps,burst)", bad, nil}
+		}
+		return &failure{"judge", "c06.lower.hist", what + ": more than one of the owed min(burst, floor(qps*idle)) requests refused (a new bucket owes its burst)", bad, nil}
+	}
+	// which bucket object serves is representation: a re-sync that replaces it although the numbers are the same, or
+	// keeps it although they changed, differs from the model (broken tie); its effect on admissions is judged above
+	for _, e := range closed {
+		q, b := e.qps, e.burst
+		for _, o := range e.obs {
+			if o.RQ == nil {
+				continue
+			}
+			changed := *o.RQ != q || *o.RB != b
+			q, b = *o.RQ, *o.RB
+			if o.Resized != nil && *o.Resized != changed && !wall {
+				return &failure{"diff", "c06.tie.bucket-identity", fmt.Sprintf("schema s%d re-synced to local (%d,%d): numbers changed=%v, bucket object replaced=%v (the model replaces it exactly when they change)", e.name, q, b, changed, *o.Resized), e.obs, nil}
+			}
 		}
 	}
 	// correspondence with the model of Sync
@@ -418,7 +428,9 @@ func genHist(c *rig.Ctx) Case {
 				cs.Hist = append(cs.Hist, HOp{Acq: ip(n), T: t.String()})
 			}
 		}
-		t.Add(t, big.NewInt(r.Int63n(3000000000)))
+		if r.Intn(2) == 0 { // half of the reconfigurations arrive with no time passing
+			t.Add(t, big.NewInt(r.Int63n(3000000000)))
+		}
 	}
 	return cs
 }
